@@ -23,15 +23,19 @@ def handle (op : String) (j : Json) : R Json := do
     let stmts ← listOf C16.fstmtOf (← field j "stmts")
     let orders ← listOf (listOf str?) (← field j "orders")
     let name ← str? (← field j "pass")
+    -- names the loop / conditional nodes of the phase mention (they are the same for every pass)
+    let extra ← match j.getObjVal? "extra" with
+      | .ok x => listOf str? x
+      | .error _ => pure []
     if name = "pipeline" then
-      let s1 := (applyPass .selfDep stmts orders).flatten
-      let s2 := (applyPass .argIso s1 []).flatten
-      let s3 := (applyPass .callIso s2 []).flatten
-      let s4 := (applyPass .iteExp s3 []).flatten
+      let s1 := (applyPass .selfDep stmts orders extra).flatten
+      let s2 := (applyPass .argIso s1 [] extra).flatten
+      let s3 := (applyPass .callIso s2 [] extra).flatten
+      let s4 := (applyPass .iteExp s3 [] extra).flatten
       pure (jobj [("out", jarr (s4.map fstmtJ))])
     else
       let pass ← passOf name
-      let res := applyPass pass stmts orders
+      let res := applyPass pass stmts orders extra
       pure (jobj [("out", jarr (res.map fun l => jarr (l.map fstmtJ)))])
   | _ => throw s!"unknown op C07.{op}"
 
